@@ -483,7 +483,9 @@ def run_property(mod, tier, seed, jobs=None):
     )
     if harness_errors:
         for e in harness_errors[:3]:
-            print("HARNESS-ERROR", "\n".join(e.splitlines()[-30:]), file=sys.stderr)
+            lines = [ln[:300] for ln in e.splitlines()]
+            shown = lines if len(lines) <= 45 else lines[:25] + ["  ..."] + lines[-18:]
+            print("HARNESS-ERROR", "\n".join(shown), file=sys.stderr)
         if exit_code == 0:
             exit_code = 2
     print(
